@@ -67,7 +67,7 @@ class Status(with_metaclass(HTTPSemantic)):
 	def reason(self, reason):
 		self.set((self.__code, reason))
 
-	STATUS_RE = re.compile(br"^([1-5]\d{2})(?:\s+([\s\w]*))\Z")
+	STATUS_RE = re.compile(br"^([1-5]\d{2})(?:\s+([\s\w]*))?\Z")  # the reason phrase may be empty (RFC 7230 Section 3.1.2)
 
 	def __init__(self, code: Optional[int]=None, reason: Optional[bytes]=None) -> None:
 		"""
@@ -96,7 +96,7 @@ class Status(with_metaclass(HTTPSemantic)):
 		if match is None:
 			raise InvalidLine(_(u"Invalid status %r"), status.decode('ISO8859-1'))
 
-		self.set((int(match.group(1)), match.group(2).decode('ascii'),))
+		self.set((int(match.group(1)), (match.group(2) or b'').decode('ascii'),))
 
 	def compose(self) -> bytes:
 		return b'%d %s' % (self.__code, self.__reason.encode('ascii'))
